@@ -765,6 +765,22 @@ class Interp(object):
         self.do_yield(v)
         return None
 
+    def e_YieldFrom(self, node, env):
+        """``yield from g`` as a statement = ``for item in g: yield item`` (the value of the expression, the
+        sub-generator's return value, is None for the generators of this code base)"""
+        it = self.eval(node.value, env)
+        if hasattr(it, "freeze"):
+            it = it.freeze()
+        if isinstance(it, GenVal):
+            if getattr(self.frame, "loop_ytrace", None) is not None or self.frame.ytrace is None:
+                raise OutOfSubset("yield from inside a cut loop")
+            self.frame.ytrace.add_seq(it.seq)
+            self.path.event("yield_seq", it.seq)
+            return None
+        for v in self.iter_concrete(it):
+            self.do_yield(v)
+        return None
+
     def do_yield(self, v):
         f = self.frame
         if f.ytrace is None:
